@@ -12,6 +12,7 @@ import (
 	"path/filepath"
 	"regexp"
 	"runtime"
+	"runtime/debug"
 	"sort"
 	"strconv"
 	"strings"
@@ -51,6 +52,8 @@ type driver struct {
 	mu        sync.Mutex
 	outcomes  []caseOutcome
 	spawnN    int
+
+	crossCompared int
 }
 
 func listMain() {
@@ -82,6 +85,8 @@ func diagMain(args []string) {
 	}
 	var rf replayFile
 	json.Unmarshal(b, &rf)
+	debug.SetMaxStack(64 << 20)
+	core.DiagStream = func(s string) { fmt.Println("note:", s) }
 	fmt.Println(core.Diagnose(rf.Case.Edges, rf.Case.Opts))
 }
 
@@ -104,6 +109,29 @@ func corridorsMain(args []string) {
 	if res.Panic != nil {
 		fmt.Println("PANIC", res.Panic.Msg, res.Panic.Func)
 	}
+}
+
+// layoutMain prints the layout autog returns for a recorded case (debugging aid).
+func layoutMain(args []string) {
+	b, err := os.ReadFile(args[0])
+	if err != nil {
+		fmt.Println(err)
+		return
+	}
+	var rf replayFile
+	json.Unmarshal(b, &rf)
+	res := core.Run(rf.Case.Edges, rf.Case.Opts)
+	if res.Panic != nil {
+		fmt.Println("PANIC", res.Panic.Msg, res.Panic.Func)
+		return
+	}
+	for _, n := range res.Layout.Nodes {
+		fmt.Printf("node %-6s x=%-10v y=%-10v w=%-8v h=%v\n", n.ID, n.X, n.Y, n.W, n.H)
+	}
+	for _, e := range res.Layout.Edges {
+		fmt.Printf("edge %s -> %s arrowstart=%v %v\n", e.FromID, e.ToID, e.ArrowHeadStart, e.Points)
+	}
+	fmt.Println("ns:", res.NS)
 }
 
 func driverMain(args []string) int {
@@ -186,6 +214,51 @@ func driverMain(args []string) int {
 		}()
 	}
 	wg.Wait()
+
+	// cross-process stage (C07): a fraction of the cases is executed again in other fresh processes; digests must agree
+	if p.CrossProcess > 0 && !d.tooManyDeaths() {
+		n2 := int(float64(total) * p.CrossProcess)
+		d2 := &driver{p: p, tier: *tier, seed: seed, exe: exe, workerExe: *workerExe, verifDir: *verifDir, runDir: d.runDir, budget: d.budget}
+		d2.spawnN = 500000
+		q2 := make(chan span, n2/(chunk/2+1)+2)
+		// different chunk boundaries than in the first pass, so that a case meets different predecessors in its process
+		c2 := chunk/2 + 1
+		for a := 0; a < n2; a += c2 {
+			q2 <- span{a, min(a+c2, n2)}
+		}
+		close(q2)
+		var wg2 sync.WaitGroup
+		for w := 0; w < *workers; w++ {
+			wg2.Add(1)
+			go func() {
+				defer wg2.Done()
+				for s := range q2 {
+					d2.runSpan(s.from, s.to, d.budget, 0)
+				}
+			}()
+		}
+		wg2.Wait()
+		firstPass := map[int]*caseOutcome{}
+		for i := range d.outcomes {
+			if d.outcomes[i].status == "ok" {
+				firstPass[d.outcomes[i].idx] = &d.outcomes[i]
+			}
+		}
+		compared := 0
+		for _, o2 := range d2.outcomes {
+			o1 := firstPass[o2.idx]
+			if o1 == nil || o2.status != "ok" || o1.res.Verdict != oracle.Held || o2.res.Verdict != oracle.Held {
+				continue
+			}
+			compared++
+			if o1.res.Detail != o2.res.Detail {
+				o1.res.Verdict = oracle.Violated
+				o1.res.Sig = p.ID + "/cross-process"
+				o1.res.Detail = fmt.Sprintf("the same call returned different results in two fresh processes: %s vs %s", o1.res.Detail, o2.res.Detail)
+			}
+		}
+		d.crossCompared = compared
+	}
 
 	// confirmation stage: time never decides alone. A timeout under load is re-run with 5x the budget while at most
 	// 4 such re-runs share the 16 cores. At most 3 confirmations are spent per stuck function: further timeouts in a
@@ -717,6 +790,7 @@ func (d *driver) finish(total int, slow []int, wall time.Duration) int {
 			"violation_sigs":      sigs,
 			"inconclusive":        inconclusive,
 			"workers_spawned":     d.spawnN,
+			"cross_process_pairs": d.crossCompared,
 		},
 		"assumptions": p.Assumptions,
 		"wall_s":      wall.Seconds(),
